@@ -6,6 +6,10 @@ import subprocess, sys, os
 # (VERIF_REPO), leaving /repo alone -- used while other work builds from /repo concurrently
 if sys.argv[1] == "--tree":
     tree = os.path.abspath(sys.argv[2]); ids = sys.argv[3:]
+    if not os.path.isdir(tree):
+        # a stored seed: fresh scratch worktree outside /repo and /verif, configured only (tools/build_repo.py compiles the sources itself)
+        subprocess.run(["git", "-C", "/repo", "worktree", "add", "--detach", tree, "HEAD"], capture_output=True)
+        subprocess.run("autoreconf -fi >/dev/null 2>&1 && ./configure >/dev/null 2>&1", shell=True, cwd=tree)
     # bring the scratch worktree to /repo's current HEAD (fix commits made meanwhile) and re-apply the change
     pf = tree + "-out/patch.diff"
     if not os.path.exists(pf):
